@@ -22,7 +22,7 @@ func IterateStructFields(structNode Node, cb func(Node) (done bool)) {
 // If the callback function returns true, the iteration stops.
 func IterateStructMethods(structNode Node, cb func(Node) (done bool)) {
 	util.IterateMethods(structNode.ExprType(), func(fn *types.Func) (done bool) {
-		if !util.CompliesGetter(fn) {
+		if !util.CompliesGetter(fn) || !Callable(structNode, fn) {
 			return
 		}
 		node := NewStructMethodNode(structNode, fn)
@@ -46,4 +46,28 @@ func IsRecursive(node Node, typ types.Type) bool {
 		}
 	}
 	return false
+}
+
+// Addressable reports whether the Go expression of the node can be the operand of &:
+// the root variable, or a field of an addressable struct or of a pointer.
+func Addressable(node Node) bool {
+	switch n := node.(type) {
+	case RootNode:
+		return true
+	case StructFieldNode:
+		parent := n.Parent()
+		return parent == nil || util.IsPtr(parent.ExprType()) || Addressable(parent)
+	}
+	return false
+}
+
+// Callable reports whether the method can be called on the value of the node: a
+// method with a pointer receiver needs a pointer or an addressable value, which
+// the result of a call (src.Addr().City()) is not.
+func Callable(node Node, method *types.Func) bool {
+	recv := method.Type().(*types.Signature).Recv()
+	if recv == nil || !util.IsPtr(recv.Type()) {
+		return true
+	}
+	return util.IsPtr(node.ExprType()) || Addressable(node)
 }
